@@ -95,7 +95,8 @@ impl RtStream {
         }
     }
     fn closest_ref(&self, target: &[u8; 20]) -> Vec<Node> {
-        let mut v = self.all();
+        // from the buckets themselves, not through the table's own iterator (which `closest` may share)
+        let mut v: Vec<Node> = self.table.verif_buckets().iter().flat_map(|(_, ns)| ns.iter().cloned()).collect();
         v.sort_by_key(|n| (!secure_ref(n), n.id().as_bytes().iter().zip(target.iter()).map(|(a, b)| a ^ b).collect::<Vec<u8>>()));
         v.truncate(20);
         v
